@@ -115,12 +115,12 @@ Definition entries_subset (a b : log) : Prop := forall k v, In (k, v) (l_entries
 
 Lemma step_other_untouched s o r' :
   (match o with
-   | OAppend r _ _ _ | OJoin r _ _ | OSetIdentity r _ => r <> r'
+   | OAppend r _ _ _ | OAppendFail r _ _ _ | OJoin r _ _ | OSetIdentity r _ => r <> r'
    | _ => True end) ->
   (r' < length (s_logs s))%nat ->
   nth_error (s_logs (fst (step s o))) r' = nth_error (s_logs s) r'.
 Proof.
-  intros Hr Hlen. destruct o as [id key sf deny|r payload pc h|r src size|r key|r mh|r io]; cbn [step].
+  intros Hr Hlen. destruct o as [id key sf deny|r payload pc h|r src size|r key|r mh|r io|r payload pc h|r]; cbn [step].
   - cbn [fst s_logs]. now rewrite nth_error_app1.
   - destruct (nth_error (s_logs s) r) as [l|] eqn:L; [|reflexivity].
     destruct (append l payload pc h) as [l' out] eqn:A.
@@ -138,6 +138,10 @@ Proof.
     destruct (olen (l_heads l) =? 0); reflexivity.
   - destruct (nth_error (s_logs s) r) as [l|] eqn:L; [|reflexivity].
     destruct (iterator l io) as [[es c]| |]; reflexivity.
+  - destruct (nth_error (s_logs s) r) as [l|] eqn:L; [|reflexivity].
+    destruct (append_entry l payload pc h); [|reflexivity]. cbn [fst s_logs].
+    rewrite nth_error_set_nth. destruct (Nat.eqb_spec r r'); [contradiction|reflexivity].
+  - reflexivity.
 Qed.
 
 Theorem step_entries_monotone s o r l :
@@ -151,7 +155,7 @@ Proof.
           exists l', nth_error (s_logs (fst (step s o))) r = Some l' /\ entries_subset l l' /\
              (length (l_entries l) <= length (l_entries l'))%nat).
   { intros H. exists l. split; [exact H|]. split; [intros k v; auto|lia]. }
-  destruct o as [id key sf deny|r0 payload pc h|r0 src size|r0 key|r0 mh|r0 io].
+  destruct o as [id key sf deny|r0 payload pc h|r0 src size|r0 key|r0 mh|r0 io|r0 payload pc h|r0].
   - apply Same. rewrite step_other_untouched; auto.
   - destruct (Nat.eq_dec r0 r) as [->|Hne]; [|apply Same; rewrite step_other_untouched; auto].
     cbn [step]. rewrite L. unfold append.
@@ -186,6 +190,11 @@ Proof.
     eexists. split; [reflexivity|]. split; [intros k v; auto|cbn; lia].
   - apply Same. rewrite step_other_untouched; auto.
   - apply Same. rewrite step_other_untouched; auto.
+  - destruct (Nat.eq_dec r0 r) as [->|Hne]; [|apply Same; rewrite step_other_untouched; auto].
+    cbn [step]. rewrite L. destruct (append_entry l payload pc h) as [e|]; cbn [fst]; [|exists l; split; [exact L|split; [intros k v; auto|lia]]].
+    cbn [s_logs]. rewrite nth_error_set_nth, L, Nat.eqb_refl. eexists. split; [reflexivity|].
+    split; [intros k v; auto|cbn; lia].
+  - apply Same. rewrite step_other_untouched; auto.
 Qed.
 
 (* ---- l_cid = l_key for every reachable log (the clock id is the writer's public key) ---- *)
@@ -203,7 +212,7 @@ Qed.
 
 Lemma keyinv_step s o : keyinv s -> keyinv (fst (step s o)).
 Proof.
-  intros K. destruct o as [id key sf deny|r payload pc h|r src size|r key|r mh|r io]; cbn [step].
+  intros K. destruct o as [id key sf deny|r payload pc h|r src size|r key|r mh|r io|r payload pc h|r]; cbn [step].
   - intros r l H. cbn [fst s_logs] in H.
     destruct (Nat.lt_ge_cases r (length (s_logs s))) as [Hl|Hl].
     + rewrite nth_error_app1 in H by assumption. eauto.
@@ -229,6 +238,11 @@ Proof.
     destruct (olen (l_heads l) =? 0); exact K.
   - destruct (nth_error (s_logs s) r) as [l|] eqn:L; [|exact K].
     destruct (iterator l io) as [[es c]| |]; exact K.
+  - destruct (nth_error (s_logs s) r) as [l|] eqn:L; [|exact K].
+    destruct (append_entry l payload pc h) as [e|]; [|exact K]. cbn [fst].
+    intros r' l'' H. cbn [s_logs] in H. rewrite nth_error_set_nth, L in H.
+    destruct (Nat.eqb r r'); [injection H as <-; cbn; eauto|eauto].
+  - exact K.
 Qed.
 
 Lemma keyinv_run ops : keyinv (run ops).
